@@ -3,6 +3,7 @@
 -/
 import GfsModel.OpsHandles
 import GfsModel.Seqinfo
+import GfsModel.Seqls
 
 namespace Gfs.Ops
 open Gfs Gfs.Proto
@@ -34,6 +35,83 @@ def dispatchCli : List String → Option (Obs × Option Obs)
           ("res", if sorted.isEmpty then "-" else ",".intercalate (sorted.map showResult)),
           ("plain", "1"), ("stable", "1") ]
       some (obs, some obs)
+  -- seqls <flags> <roots> <tree>   (cwd = tree root, "/T" = its absolute path)
+  | ["seqls", flags, roots, tree] =>
+    let fl : Seqls.Flags :=
+      { recurse := flags.contains 'r', all := flags.contains 'a', seqsOnly := flags.contains 's',
+        hash1 := flags.contains '1', strict := flags.contains 'S' }
+    let abs := flags.contains 'f'
+    let t : Seqls.Tree := if tree = "~" then [] else (tree.splitOn ",").map fun tok =>
+      match tok.splitOn ":" with
+      | [h, "f"] => ⟨unhex h, .file⟩
+      | [h, "d"] => ⟨unhex h, .dir⟩
+      | [h, "l"] => ⟨unhex h, .linkFile⟩
+      | [h, "L", tg] => ⟨unhex h, .linkDir (unhex tg)⟩
+      | _ => ⟨[], .file⟩
+    let toReal (p : Bytes) : Bytes :=
+      let c := pathClean p
+      if c = "/T".toList then [] else
+      if isPrefixOf "/T/".toList c then c.drop 3 else if c = ['.'] then [] else c
+    -- resolve a (possibly link-traversing) real path: links to directories at the last component
+    let realDir (p : Bytes) : Option Bytes :=
+      let r := toReal p
+      if Seqls.isDirPath t r then some r
+      else match t.find? (fun n => n.path = r) with
+        | some ⟨_, .linkDir tg⟩ => some tg
+        | _ => none
+    let exists_ (p : Bytes) : Bool := (realDir p).isSome || t.any (fun n => n.path = toReal p)
+    let rootArgs := ((parsePaths roots).map pathClean).eraseDups
+    let o := Seqls.listOptsOf fl
+    let lookup : Bytes → DirSpec := fun d => (realDir d).map (Seqls.dirSpecOf t)
+    -- items
+    let dirRoots := rootArgs.filter fun p => (realDir p).isSome
+    let patRoots := rootArgs.filter fun p => !exists_ p
+    let visited : List (Bytes × Bytes) :=
+      if fl.recurse then
+        dirRoots.flatMap fun p => (Seqls.walk t fl.all 12 [] p ((realDir p).getD [])).1
+      else dirRoots.map fun p => (p, (realDir p).getD [])
+    let dirResults : List (Except Err (List Seq)) :=
+      visited.map fun (shown, real) => scanDir (some (Seqls.dirSpecOf t real)) shown o none
+    let patResults : List (Option Seq) := patRoots.map fun p =>
+      match Seq.parse .hash4 p with
+      | .error _ => none
+      | .ok fs =>
+        match findSequenceOnDisk lookup (fs.dir ++ fs.base ++ fs.pad ++ fs.ext) o.style fl.strict fl.all with
+        | .ok r => r
+        | .error _ => none
+    let seqs : List Seq := (dirResults.flatMap fun r => match r with | .ok l => l | .error _ => []) ++
+      patResults.filterMap id
+    let showLine (s : Seq) : Bytes :=
+      if abs then (if isPrefixOf ['/'] s.str then pathClean s.str else pathClean ("/T/".toList ++ s.str)) else s.str
+    -- error lines: unparsable arguments, and pattern lookups whose directory cannot be read
+    let nerr := (rootArgs.filter fun p => !exists_ p && (match Seq.parse .hash4 p with
+      | .error _ => true
+      | .ok fs => (lookup fs.dir).isNone)).length
+    let names := t.map fun n => Seqls.baseName n.path
+    let mixed := mixedShapes names
+    let cover := sortBytes (expandSeqs seqs |>.map fun p =>
+      if abs then (if isPrefixOf ['/'] p then pathClean p else pathClean ("/T/".toList ++ p)) else p)
+    if flags.contains 'C' then
+      some ([("timeout", "0")], some [("timeout", "0")])
+    else
+    let m : Obs :=
+      (if mixed then [] else [("lines", hexList (sortBytes (seqs.map showLine)))]) ++
+      [ ("cover", if totalLen seqs ≤ 3000 then hexList cover else "big"),
+        ("nerr", toString nerr), ("stable", "1"), ("timeout", "0") ]
+    -- spec side: every selected file exactly once per visiting path (single files on, tame names)
+    let selected : List Bytes := visited.flatMap fun (shown, real) =>
+      let pre := dirPrefix shown
+      ((Seqls.dirSpecOf t real).filter nonDir).filterMap fun e =>
+        if !fl.all && isPrefixOf ['.'] e.name then none else some (pre ++ e.name)
+    let tame := !(names.any negZeroToken)
+    let sp : Obs :=
+      [("stable", "1"), ("timeout", "0")] ++
+      (if !tame then [("~negzero", "1")] else []) ++
+      (if !fl.seqsOnly ∧ patRoots.isEmpty ∧ selected.length ≤ 3000 then
+         [("cover", hexList (sortBytes (selected.map fun p =>
+            if abs then (if isPrefixOf ['/'] p then pathClean p else pathClean ("/T/".toList ++ p)) else p)))]
+       else [])
+    some (m, some sp)
   | _ => none
 
 end Gfs.Ops
